@@ -1,6 +1,6 @@
 (* Entry points extracted for the correspondence check of C17 (unique c17_ prefix). *)
 From Coq Require Import ZArith List.
-Require Import Bits.Lib.Result Bits.Lib.Bytes Bits.Model.P2pFrame Bits.Model.P2pCodec Bits.Model.P2pSession.
+Require Import Bits.Lib.Result Bits.Lib.Bytes Bits.Model.P2pFrame Bits.Model.P2pCodec Bits.Model.P2pSession Bits.Model.P2pTables.
 Import ListNotations.
 Local Open Scope Z_scope.
 
@@ -63,3 +63,16 @@ Definition c17_step_recv (fuel : Z) (stream : bytes) (sched : list Z) : step := 
 Definition c17_step_ser (c p : bytes) : step := SSer c p.
 Definition c17_magic_session := session.
 Definition c17_network_magic := network_magic.
+
+(* the codecs with the tables they read at call time as parameters *)
+Definition c17_inventory_in := inventory_in.
+Definition c17_parse_inventory_in := parse_inventory_in.
+Definition c17_parse_inv_payload_in := parse_inv_payload_in.
+Definition c17_inv_rt_in (tbl : inv_table) (count : Z) (items : list (bytes * bytes)) :=
+  sers <- mapM (fun it => inventory_in tbl (fst it) (snd it)) items ;;
+  p <- inv_payload count sers ;; r <- parse_inv_payload_in tbl p ;; Ok (p, r).
+(* msg_ser with COMMANDS = cmds, then recv_msg of the frame (+ rest) over a scripted socket *)
+Definition c17_ser_recv_in (sha256 : bytes -> bytes) (cmds : list bytes) (fuel : Z) (magic c p rest : bytes) (sched : list Z)
+  : result (bytes * (bytes * bytes * bytes * bytes * Z)) :=
+  fr <- msg_ser_in sha256 cmds magic c p ;;
+  r <- c17_recv_msg sha256 fuel magic (fr ++ rest) sched ;; Ok (fr, r).
